@@ -121,17 +121,30 @@ class install(repo_ops.install):
 
 class uninstall(repo_ops.uninstall):
     def __init__(self, repo, pkg, observer):
-        self.remove_path = pjoin(
-            repo.location, pkg.category, pkg.package + "-" + pkg.fullver
-        )
+        base = pjoin(repo.location, pkg.category)
+        dirname = pkg.package + "-" + pkg.fullver
+        self.remove_path = pjoin(base, dirname)
+        # the .tmp. prefix keeps it out of repository listings
+        self.tmp_remove_path = pjoin(base, f".tmp.{dirname}.unmerge")
         super().__init__(repo, pkg, observer)
 
     def remove_data(self):
         return True
 
+    def _hide_data(self):
+        """Atomically take the package out of the repository listing."""
+        if os.path.lexists(self.tmp_remove_path):
+            # leftover of an interrupted run
+            shutil.rmtree(self.tmp_remove_path)
+        os.rename(self.remove_path, self.tmp_remove_path)
+
     def finalize_data(self):
         update_mtime(self.repo.location)
-        shutil.rmtree(self.remove_path)
+        # wiping the directory in place would expose a partially removed
+        # package to anything scanning the repository (or left behind by an
+        # interruption); rename it out of view first, then wipe it.
+        self._hide_data()
+        shutil.rmtree(self.tmp_remove_path)
         update_mtime(self.repo.location)
         return True
 
